@@ -1101,6 +1101,270 @@ def oracle_variants(ctx, budget):
     return count
 
 
+# ------------------------------------------------------------------ E. 2-D adaptive_minmax weights
+def rc_lit(v, conv):
+    if not isinstance(v, tuple):
+        return f'(RC1 {conv(v)})'
+    if len(v) == 2:
+        return f'(RC2 {conv(v[0])} {conv(v[1])})'
+    return f'(RC4 {conv(v[0])} {conv(v[1])} {conv(v[2])} {conv(v[3])})'
+
+
+def minmax2d_cases(ctx):
+    from pybaselines import Baseline2D
+    prng = random.Random(ctx.seed + 53)
+    rng = np.random.default_rng(ctx.seed + 53)
+    lits = []
+    for k in range(ctx.n(72, 500)):
+        m, n = prng.choice([(5, 6), (6, 5), (7, 9), (8, 8), (10, 7), (4, 11)])
+        x = np.linspace(0, 5, m)
+        z = np.linspace(10, 30, n)
+        layout = k % 4          # 0 sorted, 1 x only, 2 z only, 3 both
+        px = rng.permutation(m) if layout in (1, 3) else np.arange(m)
+        pz = rng.permutation(n) if layout in (2, 3) else np.arange(n)
+        if layout in (1, 3) and (px == np.arange(m)).all():
+            px = px[::-1]
+        if layout in (2, 3) and (pz == np.arange(n)).all():
+            pz = pz[::-1]
+        X, Z = np.meshgrid(x[px], z[pz], indexing='ij')
+        y = 1 + 0.3 * X + 0.1 * Z + rng.normal(0, 0.05, (m, n))
+        default_w = (k // 4) % 2 == 1
+        w = None if default_w else np.arange(10, 10 + m * n, dtype=float).reshape(m, n)
+        form = k % 3
+        fr = [frac_values(prng, prng.choice([m, n])) for _ in range(4)]
+        cf = fr[0] if form == 0 else ((fr[0], fr[1]) if form == 1 else tuple(fr))
+        cw = 1001.0 if k % 5 == 0 else ((1001.0, 1003.0) if k % 5 == 1 else (1001.0, 1002.0, 1003.0, 1004.0))
+        call = {'kind': 'minmax2d', 'shape': [m, n], 'layout': ['sorted', 'x-unsorted', 'z-unsorted', 'both-unsorted'][layout],
+                'default_weights': default_w, 'constrained_fraction': cf, 'constrained_weight': cw, 'seed': ctx.seed, 'k': k}
+        fitter = Baseline2D(x[px], z[pz])
+        with warnings.catch_warnings():
+            warnings.simplefilter('ignore')
+            b, p = fitter.adaptive_minmax(y, poly_order=1, weights=w, constrained_fraction=cf, constrained_weight=cw,
+                                          method_kwargs={'max_iter': 2})
+        so = fitter._sort_order
+        io = fitter._inverted_order
+        if so is None:
+            ox = oz = None
+        elif isinstance(so, tuple):
+            if so[0] is Ellipsis:
+                ox, oz = None, (so[1], io[1])
+            else:
+                ox, oz = (so[0][:, 0], io[0][:, 0]), (so[1][0], io[1][0])
+        else:
+            ox, oz = (so, io), None
+        olit = lambda o: 'None' if o is None else f'(Some (of_list 0 {zlist(o[0])}, of_list 0 {zlist(o[1])}))'   # noqa
+        win = zlist(range(10, 10 + m * n)) if not default_w else zlist([1] * (m * n))
+        ctx.case(('minmax2d', m, n, layout, default_w, cf, cw), nontrivial=any(f > 0 for f in fr[:1 if form == 0 else 2 if form == 1 else 4]),
+                 kind=f'minmax2d:{call["layout"]}')
+        lits.append((f'({m}, {n}, {olit(ox)}, {olit(oz)}, {rc_lit(cf, hexf)}, {rc_lit(cw, lambda v: str(int(v)))}, {win}, '
+                     f'{zlist(p["weights"].ravel())}, {zlist(p["constrained_weights"].ravel())})', call))
+
+    def on_bad(call):
+        ctx.fail(f'minmax2d:weights:{call["layout"]}:{"default" if call["default_weights"] else "given"}',
+                 f'Baseline2D.adaptive_minmax(shape={call["shape"]}, {call["layout"]}, constrained_fraction={call["constrained_fraction"]}, '
+                 f'constrained_weight={call["constrained_weight"]}): reported weights / constrained_weights differ from ceil(M*f) rows and '
+                 'ceil(N*g) columns at each edge in x / z order (last columns > last rows > first columns > first rows)', call)
+
+    if lits:
+        ctx.sample({'kind': 'minmax2d-case', 'coq_literal': lits[3][0][:400], 'call': lits[3][1]})
+    ctype = 'Z * Z * option ((Z -> Z) * (Z -> Z)) * option ((Z -> Z) * (Z -> Z)) * rc float * rc Z * list Z * list Z * list Z'
+    run_cases(ctx, 'correspondence:adaptive_minmax-2d-weights', 'minmax2d', ctype,
+              f"""Definition ok (c : {ctype}) : bool :=
+  let '(m, n, ox, oz, cf, cw, w, wobs, cobs) := c in
+  let '(f0, f1, f2, f3) := fill4 cf in let '(w0, w1, w2, w3) := fill4 cw in
+  let r := minmax2d_weights m n ox oz (edge_count Num_F m f0) (edge_count Num_F m f1) (edge_count Num_F n f2)
+             (edge_count Num_F n f3) w0 w1 w2 w3 (of_list2 0 n w) in
+  zl_eqb (to_list2 m n (fst r)) wobs && zl_eqb (to_list2 m n (snd r)) cobs.""", lits, on_bad)
+
+
+# ------------------------------------------------------------------ F. the lam grid of optimize_extended_range
+def lamgrid_cases(ctx):
+    import numpy._core.function_base as fb
+    from pybaselines import Baseline
+    prng = random.Random(ctx.seed + 59)
+    rng = np.random.default_rng(ctx.seed + 59)
+    lits = []
+    grids = [(2, 8, 1), (2, 5, 1), (1, 4, 0.5), (3, 3, 1), (6, 2, 1), (2, 3, 0.25), (2, 5, -1), (5, 2, -1), (1.5, 4.25, 0.75),
+             (0, 1, 0.3), (2, 2.5, 1), (2, 7, 2), (2, 7, 0), (-1, 2, 0.7), (3, 1, 0.4), (2.0, 2.0, 0.5), (1, 6, 1.7), (0.5, 0.6, 0.01)]
+    for k in range(ctx.n(36, 200)):
+        lo, hi, st = grids[k % len(grids)] if k < 2 * len(grids) else (round(prng.uniform(-1, 5), 2), round(prng.uniform(-1, 8), 2),
+                                                                          prng.choice([0.3, 0.5, 1, 1.3, -0.5, 2]))
+        n = prng.choice([20, 31])
+        x = np.linspace(0, 10, n)
+        y = rng.uniform(1, 9, n)
+        offs = [prng.randint(-3, 3) for _ in range(80)]
+        rec, grid_calls = [], []
+        state = {'in_logspace': False}
+
+        def make(orig):
+            def stub(self, data=None, *args, **kwargs):
+                L = len(data)
+                rec.append(kwargs.get('lam'))
+                return np.arange(L, dtype=float) + offs[(len(rec) - 1) % len(offs)], {}
+            return stub
+        o_logspace, o_linspace = np.logspace, fb.linspace
+
+        def logspace(*a, **kw):
+            state['in_logspace'] = True
+            try:
+                return o_logspace(*a, **kw)
+            finally:
+                state['in_logspace'] = False
+
+        def linspace(*a, **kw):
+            out = o_linspace(*a, **kw)
+            if state['in_logspace']:
+                grid_calls.append(np.array(out, dtype=float))
+            return out
+        call = {'kind': 'lamgrid', 'min_value': lo, 'max_value': hi, 'step': st, 'n': n, 'seed': ctx.seed, 'k': k}
+        raised = False
+        np.logspace, fb.linspace = logspace, linspace
+        try:
+            with warnings.catch_warnings():
+                warnings.simplefilter('ignore')
+                with Patched(Baseline, 'asls', make):
+                    try:
+                        b, p = Baseline(x).optimize_extended_range(y, method='asls', side='both', width_scale=0.2, min_value=lo,
+                                                                   max_value=hi, step=st,
+                                                                   pad_kwargs={'mode': 'constant', 'constant_values': 0})
+                    except ValueError as exc:
+                        if 'Number of samples' in str(exc):
+                            raised = True
+                        else:
+                            raise
+        finally:
+            np.logspace, fb.linspace = o_logspace, o_linspace
+        if raised:
+            ctx.case(('lamgrid', lo, hi, st), nontrivial=True, kind='lamgrid:raises')
+            lits.append((f'({hexf(lo)}, {hexf(hi)}, {hexf(st)}, None, [], 0)', call))
+            continue
+        swept = bool(grid_calls) and len(grid_calls[-1]) > 0
+        exps = grid_calls[-1] if swept else np.array([float(lo)])
+        lam = np.array(rec, dtype=float)
+        with np.errstate(all='ignore'):
+            expect = np.power(10.0, exps) if swept else 10.0 ** np.array([lo])
+        if len(lam) != len(exps) or not same(lam, expect):
+            ctx.fail('extended:lam-grid:pow', 'optimize_extended_range: the lam values handed to the method are not 10.0 ** (the exponents '
+                     'np.logspace computed)', call)
+            continue
+        added = 8
+        S = [int(round(float(r) ** 2 * added)) for r in p['rmse']]
+        bi = [i for i, v in enumerate(lam) if v == p['optimal_parameter']]
+        errs_ok = len(S) == len(lam) and bi
+        if not errs_ok:
+            ctx.fail('extended:lam-grid:optimal-not-in-grid', 'optimize_extended_range: optimal_parameter is not a value of the grid swept', call)
+            continue
+        ctx.case(('lamgrid', lo, hi, st), nontrivial=len(exps) > 1, kind='lamgrid:swept')
+        lits.append((f'({hexf(lo)}, {hexf(hi)}, {hexf(st)}, Some [{"; ".join(hexf(v) for v in exps)}], {zlist(S)}, {bi[0]})', call))
+
+    def on_bad(call):
+        ctx.fail('extended:lam-grid', f'optimize_extended_range(min_value={call["min_value"]}, max_value={call["max_value"]}, '
+                 f'step={call["step"]}): the exponent grid (count ceil((max-min)/step), linspace values, exact end point, sign flip of step, '
+                 'raise on a negative count) or the selected grid index differ from the model', call)
+
+    if lits:
+        ctx.sample({'kind': 'lamgrid-case', 'coq_literal': lits[0][0][:300], 'call': lits[0][1]})
+    ctype = 'float * float * float * option (list float) * list Z * Z'
+    run_cases(ctx, 'correspondence:optimize_extended_range-lam-grid', 'lamgrid', ctype,
+              f"""Definition ok (c : {ctype}) : bool :=
+  let '(lo, hi, st, gobs, errs, best) := c in
+  match lam_grid Num_F lo hi st, gobs with
+  | None, None => true
+  | Some g, Some g' => fl_eqb g g' &&
+      match selected_param (zrange 0 (zlen g)) errs with Some b => b =? best | None => false end
+  | _, _ => false
+  end.""", lits, on_bad)
+
+
+# ------------------------------------------------------------------ oracle 3: brpls solve count, custom_bc smoothing system
+def oracle_growth(ctx, budget):
+    from pybaselines import Baseline, Baseline2D
+    import pybaselines._weighting as wt
+    from . import c06
+    rng = np.random.default_rng(ctx.seed + 91)
+    prng = random.Random(ctx.seed + 91)
+    count = 0
+    with warnings.catch_warnings():
+        warnings.simplefilter('ignore')
+        # ---- nested brpls loops under collab_pls: one solve (= one re-weighting) per step-2 fit
+        for two_d, klass in ((False, Baseline), (True, Baseline2D)):
+            for method in ('brpls', 'pspline_brpls'):
+                for avg in (True, False):
+                    if two_d:
+                        x, z, y = M.make_z2d(rng, 11, 12)
+                        data = np.array([y, y * 1.2 + 1])
+                        mk = lambda: Baseline2D(x, z)   # noqa
+                        kw = dict(M.KW_2D[method])
+                    else:
+                        n = 45
+                        x = M.make_x(prng, n)
+                        y = M.make_y(rng, x)
+                        data = np.vstack([y, y * 1.2 + 1, y[::-1]])
+                        mk = lambda: Baseline(x)   # noqa
+                        kw = dict(M.KW_1D[method])
+                    kw.update(max_iter=prng.choice([3, 6]), max_iter_2=prng.choice([2, 5]), tol=1e-4, tol_2=1e-4)
+                    counts, cur = [], [0]
+                    orig_w = wt._brpls
+
+                    def counting(*a, **k_):
+                        cur[0] += 1
+                        return orig_w(*a, **k_)
+
+                    def make(orig):
+                        def rec(self, data_=None, *args, **kwargs):
+                            cur[0] = 0
+                            out = orig(self, data_, *args, **kwargs)
+                            counts.append((cur[0], kwargs.get('tol'), kwargs.get('tol_2')))
+                            return out
+                        return rec
+                    call = {'kind': 'oracle3-brpls', 'method': method, 'two_d': two_d, 'average_dataset': avg,
+                            'max_iter': kw['max_iter'], 'max_iter_2': kw['max_iter_2'], 'seed': ctx.seed}
+                    wt._brpls = counting
+                    try:
+                        with Patched(klass, method, make):
+                            b, p = mk().collab_pls(data, average_dataset=avg, method=method, method_kwargs=kw)
+                    finally:
+                        wt._brpls = orig_w
+                    count += 1
+                    ctx.case(('oracle3-brpls', method, two_d, avg), nontrivial=any(c[0] > 1 for c in counts[:-len(data)]), kind='oracle3:brpls-solve-count')
+                    step2 = counts[-len(data):]
+                    if not all(c[0] == 1 and c[1] == np.inf and c[2] == np.inf for c in step2):
+                        ctx.fail(f'collab:{method}:{"2d" if two_d else "1d"}:nested-single-pass',
+                                 f'collab_pls(method={method!r}, max_iter={kw["max_iter"]}, max_iter_2={kw["max_iter_2"]}): a step-2 fit '
+                                 f'performed {[c[0] for c in step2]} solves / re-weightings (expected exactly one each, tol = tol_2 = inf)', call)
+        # ---- custom_bc with lam: the captured banded system is (I + lam D'D) z = interpolated baseline
+        for k in range(10 * budget):
+            n = prng.choice([9, 14, 23, 40])
+            d = prng.choice([1, 2, 3])
+            lam = float(2 ** prng.randint(0, 6))
+            bs = prng.choice([1, 2, 3, 4])
+            hp = bool(k % 2) and c06.pentapy_available()
+            x = np.arange(n, dtype=float)
+            y = np.round(M.make_y(rng, np.linspace(0, 1, n) * 10 + 1))
+            regs = ((0, n // 2), (n // 2, n)) if k % 3 else ((None, None),)
+            samp = [1, 2, 3][k % 3]
+            call = {'kind': 'oracle3-smooth', 'n': n, 'diff_order': d, 'lam': lam, 'banded_solver': bs, 'pentapy': hp,
+                    'regions': regs, 'sampling': samp, 'seed': ctx.seed}
+            f0 = Baseline(x, check_finite=False, assume_sorted=True)
+            b0, _ = f0.custom_bc(y, method='poly', regions=regs, sampling=samp, method_kwargs={'poly_order': 2})
+            with c06.Capture(hp) as cap:
+                f1 = Baseline(x, check_finite=False, assume_sorted=True)
+                f1.banded_solver = bs
+                b1, _ = f1.custom_bc(y, method='poly', regions=regs, sampling=samp, lam=lam, diff_order=d,
+                                     method_kwargs={'poly_order': 2})
+            count += 1
+            ctx.case(('oracle3-smooth', n, d, lam, bs, hp), nontrivial=True, kind='oracle3:custom-smooth-system')
+            if len(cap.calls) != 1:
+                ctx.fail('custom_bc:smooth:calls', f'custom_bc(lam={lam}): {len(cap.calls)} banded solves instead of one', call)
+                continue
+            A = c06.densify(cap.calls[0], n)
+            doc = np.eye(n) + lam * np.array(c06.DtD(n, d), dtype=float)
+            if not same(A, doc) or not same(cap.calls[0]['b'], b0) or not same(b1, cap.calls[0]['out']):
+                ctx.fail('custom_bc:smooth:system', f'custom_bc(lam={lam}, diff_order={d}, N={n}, banded_solver={bs}): the banded system '
+                         'is not (I + lam D\'D) z = interpolated baseline, or the result is not its solution as returned by the solver', call)
+    return count
+
+
 def run(ctx):
     ctx.rule = ('collab trace: every accepted wrapped method (1-D 28, 2-D 20) x average_dataset x {real method with valid keys incl. '
                 'tol/max_iter/weights/alpha/tol_2/weights_as_mask, probe with a random key subset in random order}; '
@@ -1119,8 +1383,8 @@ def run(ctx):
         'harness recorders replace / wrap the wrapped method on the Baseline classes from the harness process only',
     ]
     ctx.gate()
-    ok = ctx.build_props(extra=['C17/Float.vo'])
-    for step in (collab_trace, minmax_cases, custom_cases, extended_cases):
+    ok = ctx.build_props(extra=['C17/Float.vo'], timeout=1500)
+    for step in (collab_trace, minmax_cases, minmax2d_cases, custom_cases, extended_cases, lamgrid_cases):
         try:
             step(ctx)
         except Exception:  # noqa
@@ -1129,14 +1393,20 @@ def run(ctx):
     budget = 1 if (ok and not ctx.broken and ctx.tier == 'quick') else 3
     n = oracle(ctx, budget)
     n += oracle_variants(ctx, budget)
+    n += oracle_growth(ctx, budget)
     ctx.note(f'direct oracle: {n} recomposition comparisons on real methods, bit-exact (budget x{budget})')
     ctx.note('oracle 2: recomposition identities with non-default wrapped-method parameters per family (mask_initial_peaks, '
              'use_original, cost functions, threshold, diff_order, spline_degree, ...), sorted / unsorted x, with / without user weights; '
              'at the wrapped-call boundary every sub-call\'s array arguments are snapshotted on entry, must be unchanged on return, '
              'bit-identical across the four fits / step-2 calls / sweep and to the reported arrays; recomputation uses pristine copies')
-    ctx.note('not covered: custom_bc with user weights in method_kwargs on UNSORTED x (only sorted x is exercised), custom_bc with lam smoothing (Whittaker system is C06), regions with an empty section (NaN mean), '
-             '2-D adaptive_minmax index arithmetic (same code shape, four edges) is exercised by C01/C02 oracles only, '
-             'the Gaussian / extrapolated edge values of optimize_extended_range, the log-spaced lam grid values')
+    ctx.note('growth: 2-D adaptive_minmax reported arrays for the four sort-order layouts x fraction / weight forms (scalar, pair, four) '
+             'with ceil in binary64; lam exponent grid captured inside np.logspace and compared bit-for-bit (count, values, exact end '
+             'point, step flip, raise on a negative count), lam == 10.0 ** exponent checked on the Python side; selected grid index; '
+             'brpls / pspline_brpls (1-D, 2-D) perform exactly one solve per step-2 fit; custom_bc(lam) system captured with C06\'s '
+             'recorder == I + lam D\'D exactly (lam a power of two, all banded_solver settings, with / without pentapy)')
+    ctx.note('not covered: custom_bc with user weights in method_kwargs on UNSORTED x (only sorted x is exercised), regions with an '
+             'empty section (NaN mean), per-pass trace validation of the nested brpls loops for general tolerances (solve count and '
+             'recomposition only), the Gaussian / extrapolated edge values of optimize_extended_range, libm pow of the lam grid')
 
 
 def replay(rep):
@@ -1145,7 +1415,13 @@ def replay(rep):
     print('replay case:', case)
     ctx = Ctx(PROP, 'quick', case.get('seed', 0))
     kind = case.get('kind', '')
-    if kind.startswith('oracle2'):
+    if kind.startswith('oracle3'):
+        oracle_growth(ctx, 3)
+    elif kind == 'minmax2d':
+        minmax2d_cases(ctx)
+    elif kind == 'lamgrid':
+        lamgrid_cases(ctx)
+    elif kind.startswith('oracle2'):
         oracle_variants(ctx, 3)
     elif kind.startswith('oracle'):
         oracle(ctx, 3)
